@@ -7,6 +7,11 @@ _NOTE = ("Trusted: Coq 8.16.1 kernel + vm_compute; the Go harness (generators, p
          "differential evaluation on generated inputs, not by proof; ")
 
 TEXT = {
+    "C01": {
+        "level": "The approximation order 'admits' is a Gallina function. Theorems for all operands and all weakenings: big.Float comparison is the order of exact values (total preorder, trichotomy, mixed transitivity); LessThan, GreaterThan, Not, And, Or on weakened operands always succeed and their result admits the concrete result. Range arithmetic across precisions and the text-vs-value gap of Equals are refuted by kernel-computed witnesses replayed on every run (known findings). For all 20 operations every generated (concrete, weakened) pair is run on model and implementation, compared bit-for-bit, and the soundness property is evaluated on both sides.",
+        "note": _NOTE + "soundness theorems cover comparison and logic; the remaining operations are decided per generated pair by the model-side property (vm_compute) and the oracle (partial).",
+        "technique": "Coq proof (order theory of big.Float.Cmp + soundness of comparison/logic for all weakenings) + refutation witnesses + model-side property evaluation and correspondence by vm_compute",
+    },
     "C04": {
         "level": "Every operation method of the model is the generic mark wrapper around its unmarked core; theorems (all operands): the result is the stripped run's result carrying exactly the union of the operands' marks, success/failure is unchanged by marking, non-interference of the unmarked result, Equals collects nested marks, SetVal hoists member marks. Paired marked/stripped runs of all operations, SetVal, Convert and 12 stdlib functions are evaluated on the implementation on every run and the marked runs are compared with the model.",
         "note": _NOTE + "Convert and Function.Call mark propagation: oracle here, theorems in C10 (function framework).",
